@@ -302,13 +302,15 @@ def run(ck):
         jobs.append(((mod, cfg), dict(name=PID + "/broken_" + name, workers=2, check=False)))
         meta.append(("broken", name, inv))
     # (2) generation
-    L = 4 if thorough else 3
+    Lmax = 4 if thorough else 3
+    Lof = {f: (Lmax if f in ("exact", "svgp") else 3) for f in fams_spec}       # kernel-cache families: length 3 + simulations
     for f in fams_spec:
+        L = Lof[f]
         mod, cfg = write_mc(os.path.join(wd, "gen"), "gen_" + f, f, {}, 3, L, True, [])
         jobs.append(((mod, cfg), dict(name=PID + "/gen_" + f, workers=4, check=False, dump=True, coverage=False)))
         meta.append(("gen", f, None))
         mod, cfg = write_mc(os.path.join(wd, "gen"), "sim_" + f, f, {}, 4, 9, True, [])
-        jobs.append(((mod, cfg), dict(name=PID + "/sim_" + f, workers=1, check=False, simulate=dict(num=(1500 if thorough else 60)), depth=10, seed=ck.seed + 1)))
+        jobs.append(((mod, cfg), dict(name=PID + "/sim_" + f, workers=1, check=False, simulate=dict(num=(400 if thorough else 60)), depth=10, seed=ck.seed + 1)))
         meta.append(("sim", f, None))
     results = tlc.run_many(jobs, parallel=5)
     hists = {f: [] for f in fams_spec}
@@ -330,7 +332,7 @@ def run(ck):
         elif kind == "gen":
             if res.rc != 0 and not res.violation:
                 raise tlc.TLCError("generation failed for %s:\n%s" % (name, res.stdout[-1500:]))
-            hists[name] += histories_from_states(res.states(), L)
+            hists[name] += histories_from_states(res.states(), Lof[name])
         elif kind == "sim":
             for beh in res.behaviours():
                 if beh:
